@@ -36,6 +36,21 @@ CLAIMED = {
    note='Trusted: Coq kernel; extraction+driver; --verif-hook rates op (includes exchange_rates.rs into a private module); no network in the sandbox (cache miss = DNS error, exit 1); system clock for freshness (edits near the expiry boundary are skipped and counted).',
    technique='Coq proof over byte strings (explicit panic sites, prefix monotonicity) + differential execution of hook and binary on all truncations',
    ref='DESIGN.md §8 C20, notes/C20.md'),
+ 'C07': dict(
+   text='Partial by nature (wall-clock is the runtime\'s). Proved (coq/Properties/C07.v, 29 theorems, no axioms): a tick/poll cost model written from the loop structure of every long-running function gives gap bounds polynomial in operand SIZE for the polled loops (mul, divmod, pow, factorial, fibonacci, one-bit shifts, new_die, and -- after fix commits 30274a2, a55ff29, f8353e2 that this check motivated -- the date step loops, the lshift_n insert loop and Dist::bop) and minimal poll counts; the loops as they were are kept as *_old skeletons with gap_unbounded refutations; the exponential juxtaposition parse is refuted and stays an open known finding. Statement-level machine for the evaluator under an interrupt firing at its k-th poll: the outcome is Interrupted or the uninterrupted result (C07_interrupt_or_same), work after the firing poll is bounded (C07_interrupt_prompt), the variables afterwards are a prefix of the uninterrupted run\'s writes, `_`/`ans` move together and only once the value exists (C07_interrupt_state, _ans_unchanged), preview leaves no trace. Tie: FireAt k for every k on short runs and sampled k on long ones (outcome and context afterwards in the model\'s reachable set), per-operation poll counts never below the model\'s minimum (removing a poll is an alarm, adding one is not), witnesses of the repaired loops replayed.',
+   note='Trusted: Coq kernel; extraction+driver; h_eval harness with a counting/firing Interrupt; cost skeletons are tied to the code only through poll counts and replays; wall-clock is recorded, never a verdict.',
+   technique='Coq proof over a poll/cost skeleton and an interrupt state machine + differential firing-point sweeps',
+   ref='DESIGN.md §8 C07, notes/C07.md'),
+ 'C09': dict(
+   text='Proved for the core calculus (coq/Properties/C09.v, 17 theorems, no axioms): scope lookup is innermost-first, closures keep the parameter bindings they were created with (lexical), beta in environment form and in capture-avoiding substitution form (general, via a closing/lockstep theorem: configurations with the same closed form evaluate alike, also under an interrupt), scope irrelevance for closed terms, user variables shadow built-in names with the one syntactic exception `a b` = unit a_b stated and proved (it is also an open known finding against the property text), `_`/`ans` = last successful result, unchanged on failure, completed assignments survive a later failure. Numeric primitives are abstract (Section parameters), instantiated with integers for the tie. Not proved: let-substitution for assigned names (call-by-value variable vs re-evaluated text needs an existential-fuel simulation) -- tested only. Tie: random programs (assignments, \\x. / x: / x => lambdas, curried, higher-order, shadowing, failures) paired with their substituted / beta-reduced forms through evaluate on fresh contexts, `_`/`ans` probed after each step, model vs implementation on values and error kinds.',
+   note='Trusted: Coq kernel; extraction+driver; h_eval harness; hooks (per-variable snapshot, AST dump). Context variables are late-bound by design: theorems are stated with that split.',
+   technique='Coq proof (logical relations, closing/lockstep) over a call-by-name lambda calculus model + differential program pairs',
+   ref='DESIGN.md §8 C09, notes/C09.md'),
+ 'C13': dict(
+   text='Partial by nature (the weight is on the tie). Proved (coq/Properties/C13.v, 9 theorems, no axioms) for EVERY evaluator (an arbitrary effect program: may assign, draw random numbers, request rates, fail, be interrupted at any poll): preview returns the context unchanged unless the evaluator panics (C13_preview_ctx_unchanged_except_known with the panicking-evaluator refutation as a model fact: the restore depends on C06 panic-freedom), the random source and the rate handler are unreachable during a preview, the output is empty or a single line (no C0/C1 control, DEL, U+2028/2029 -- filter repaired by fix eacb46c, old filter refuted), at most 50 bytes, not unit-typed, not an echo of the input. Tie: a corpus of inputs (valid, invalid, assignments, random expressions, currency conversions, long and multi-line outputs) and every prefix of each, on contexts with variables and counting rng / rate callbacks, with FireAt k for all small k: before/after = per-variable serialized image + settings + handler identity + callback counters.',
+   note='Trusted: Coq kernel; extraction+driver; h_eval harness and the eval hooks (snapshots). The evaluator is an oracle.',
+   technique='Coq proof parametric in the evaluator + differential before/after snapshots of the real context',
+   ref='DESIGN.md §8 C13, notes/C13.md'),
  'C06': dict(
    text='Partial by nature. Proved (coq/Properties/C06.v): panic-freedom of the modelled functions reachable from evaluate/preview/inline (JSON escaper and inline JSON for all Unicode text, superscript-exponent accumulation for digit strings of any length in checked and unchecked builds, the i^y selector); the other areas add their own no-panic theorems in their property files. Observed, not proved: everything else, by crash probes on the default build (feature off) in debug (overflow checks) and release profiles over 48 context configurations: suite+manual corpus read from /repo, mutations, token soup, every typed prefix, bounded nesting ramps. Native stack exhaustion is reachable (two open known findings).',
    note='Trusted: Coq kernel; extraction+driver; harness_plain; 8 MiB stack / 4 GiB address-space limits of the probe workers. Hangs and >=128 MiB allocation failures are counted as resource exhaustion (C07), not crashes. Models tied by correspondence (superscripts vs evaluate).',
